@@ -26,7 +26,8 @@ pub enum Mutn {
     RemaskFor(usize),
     /// deliver the unchanged bytes to node w
     Redirect(usize),
-    /// deliver the unchanged bytes from another source address (0: third node's, 1: a stranger's)
+    /// deliver the unchanged bytes from another source address (0: third node's, 1: a stranger's,
+    /// 2: the genuine IP with another port, 3: the IPv4-mapped / unmapped spelling of the genuine address)
     ForeignSrc(u8),
     /// unmasked domain: append `n` bytes to the auth-data and fix the auth-data size, re-mask
     AuthTail(usize),
@@ -129,7 +130,21 @@ impl Driver for Tamper {
                     target = Some(*n);
                 }
                 Mutn::Redirect(n) => target = Some(*n),
-                Mutn::ForeignSrc(k) => src = if *k == 0 { w.nodes[w.nodes.len() - 1].addr } else { stranger },
+                Mutn::ForeignSrc(k) => {
+                    src = match *k {
+                        0 => w.nodes[w.nodes.len() - 1].addr,
+                        1 => stranger,
+                        2 => std::net::SocketAddr::new(src.ip(), src.port() + 1),
+                        _ => match src {
+                            std::net::SocketAddr::V4(a) => std::net::SocketAddr::new(a.ip().to_ipv6_mapped().into(), a.port()),
+                            std::net::SocketAddr::V6(a) => std::net::SocketAddr::new(a.ip().to_ipv4_mapped().map(std::net::IpAddr::V4).unwrap_or_else(|| {
+                                let mut s = a.ip().segments();
+                                s[7] ^= 0x100;
+                                std::net::IpAddr::V6(s.into())
+                            }), a.port()),
+                        },
+                    }
+                }
                 Mutn::AuthTail(n) | Mutn::AuthTrim(n) | Mutn::AuthGrow(n) => {
                     let grow = matches!(self.m, Mutn::AuthGrow(_));
                     let tail = matches!(self.m, Mutn::AuthTail(_));
@@ -272,6 +287,8 @@ fn bases() -> Vec<(String, HCfg, Vec<Ev>)> {
         ("fresh".into(), quiet(vec![req(1, 0, Body::Ping, true), req(0, 1, Body::Talk, true), req(1, 0, Body::Find(2), true)], vec![]), vec![]),
         // the recipient knows no record of the initiator: WHOAREYOU carries enr-seq 0 and the handshake a record
         ("fresh-unknown".into(), quiet(vec![req(1, 0, Body::Ping, true), req(0, 1, Body::Talk, true)], vec![]), vec![Ev::Submit(0), Ev::Deliver(0), Ev::AnsWay(0, false)]),
+        // the same over IPv6 (addresses take other code paths in address comparison and hashing)
+        ("fresh-ipv6".into(), HCfg { ipv6: true, ..quiet(vec![req(1, 0, Body::Ping, true), req(0, 1, Body::Talk, true)], vec![]) }, vec![]),
         ("awaiting-record".into(), quiet(vec![req(0, 1, Body::Ping, false), req(1, 0, Body::Talk, true), req(0, 1, Body::Find(2), false)], vec![]), vec![]),
         // node 1 loses its sessions after the first exchange; node 0 then re-keys in place (old keys retained)
         ("re-keyed".into(), quiet(vec![req(0, 1, Body::Ping, true), req(0, 1, Body::Talk, true), req(1, 0, Body::Ping, true)], vec![1]), vec![Ev::Submit(0), Ev::Deliver(0), Ev::AnsWay(1, true), Ev::Deliver(0), Ev::Deliver(0), Ev::Respond(1), Ev::Deliver(0), Ev::Restart(1)]),
@@ -346,6 +363,8 @@ fn mutations(len: usize, hl: usize, log_len: usize, thorough: bool) -> Vec<Mutn>
     m.push(Mutn::Redirect(2));
     m.push(Mutn::ForeignSrc(0));
     m.push(Mutn::ForeignSrc(1));
+    m.push(Mutn::ForeignSrc(2));
+    m.push(Mutn::ForeignSrc(3));
     m
 }
 
@@ -368,6 +387,11 @@ pub fn run() {
         }
         for (si, (_step, len, hl, log_len)) in sites.iter().enumerate() {
             for m in mutations(*len, *hl, *log_len, thorough) {
+                // the IPv6 base differs from "fresh" only in how addresses are handled: quick tier
+                // applies the address / routing mutations and a thinned set of the byte mutations
+                if name == "fresh-ipv6" && !thorough && !matches!(m, Mutn::ForeignSrc(_) | Mutn::Redirect(_) | Mutn::RemaskFor(_) | Mutn::HeaderWithBodyOf(_) | Mutn::BodyWithHeaderOf(_) | Mutn::Append(_) | Mutn::AuthTail(_)) {
+                    continue;
+                }
                 jobs.push((bi, si, m));
             }
         }
